@@ -225,11 +225,12 @@ def w3(facts, tier):
                  f"the specification describes {key} but no such writer exists in the tree any more")
 
 
-@rule("W4", ["C01", "C02", "C05", "C07"], floor=2, doc="container header: what save_impl writes is what load_impl reads")
+@rule("W4", ["C01", "C02", "C05", "C07", "C14"], floor=3, doc="container header: what save_impl writes is what load_impl reads")
 def w4(facts, tier):
     W = wire.WireAnalysis(facts)
     pairs = [("savefile::Serializer<'a, W>::save_impl", "savefile::Deserializer<'_, TR>::load_impl"),
-             ("savefile::Serializer<'a, W>::bare_serialize", "savefile::Deserializer<'_, TR>::bare_deserialize")]
+             ("savefile::Serializer<'a, W>::bare_serialize", "savefile::Deserializer<'_, TR>::bare_deserialize"),
+             ("savefile::crypto::RandomNonceSequence::serialize", "savefile::crypto::RandomNonceSequence::deserialize")]
     for wn, rn in pairs:
         wf, rf = facts.fns.get(wn), facts.fns.get(rn)
         if not wf or not rf:
@@ -238,9 +239,10 @@ def w4(facts, tier):
         lr, _, _, _ = W.lang(rf, None, {}, {})
         lw, lr = rx.strip_payload(lw), rx.strip_payload(lr)
         ok, word, lw2, lr2 = W.contains_modulo_expansion(lw, lr, None, {})
-        key = wn.split("::")[-1]
+        key = wn.split("::")[-2] + "::" + wn.split("::")[-1] if "Nonce" in wn else wn.split("::")[-1]
+        pr = ["C14", "C01", "C07"] if "Nonce" in wn else ["C01", "C02", "C05", "C07"]
         if ok is True:
-            yield ob(["C01", "C02", "C05", "C07"], "W4", key, "pass", where(wf), f"{rx.show(lw)} ⊆ reader")
+            yield ob(pr, "W4", key, "pass", where(wf), f"{rx.show(lw)} ⊆ reader")
         else:
-            yield ob(["C01", "C02", "C05", "C07"], "W4", key, "violation" if ok is False else "undecided", where(wf),
+            yield ob(pr, "W4", key, "violation" if ok is False else "undecided", where(wf),
                      f"{wn} can emit [{rx.show_word(word)}] which {rn} does not consume; writer {rx.show(lw)} ; reader {rx.show(lr)}")
